@@ -147,6 +147,29 @@ def check(prog, rep, tier):
         timer_rule('R03.c', 'KEEPALIVE', state, 'hold', [])
     timer_rule('R03.c', 'UPDATE', 'Established', 'hold', [])
 
+    # wire level: every received KEEPALIVE / UPDATE that is counted or reported in Established restarts
+    # the hold timer, whatever the decoder thought of its content (a tolerated malformed UPDATE included)
+    from .. import profile as P
+    seenw = {}
+    for r in tab.get('WIRE', 'Established'):
+        cls = r.wire['cls']
+        if cls not in ('UPDATE', 'KEEPALIVE') or r.kind == 'raise' or r.final != 'Established':
+            continue
+        if not (r.handler_calls() or any(e[0] == 'fsm' for e in r.events)):
+            continue            # decoder raised: nothing delivered (C10/C18)
+        kind = 'malformed' if 'on_update_error' in r.handler_calls() else 'ok'
+        name = 'wire:%s(%s)@Established' % (cls, kind)
+        probs = P.RESTART_HOLD(r)
+        if probs:
+            if seenw.get(name) != 'bad':
+                seenw[name] = 'bad'
+                rep.bad('R03.c', name, file=common.row_file(r), line=common.row_line(r), func=common.row_func(r),
+                        found='a received %s (%s) is delivered but %s' % (cls, kind, probs[0]),
+                        expected='fsm event that restarts the hold timer', key=name, path=r.describe())
+        elif name not in seenw:
+            seenw[name] = 'ok'
+            rep.ok('R03.c', name, file='yabgp/core/protocol.py', line=common.row_line(r))
+
     # R03.d: over all rows
     seen = set()
     nres = 0
